@@ -153,7 +153,16 @@ def noval_body(ctx: Ctx, p: dict) -> None:
     new = (B.left["validity_mask"].data ^ A.left["validity_mask"].data)
     if (new & ~0b1100000000).any():
         ctx.violation("C08/cross-check-changed-other-bits", "appending validation changed bits other than 8/9")
-    ctx.case(p, nontrivial=bool((new != 0).any()), classes=["multiscale"] if "multiscale" in pipe else [])
+    # the machine that just ran WITH validation now runs the pipeline without it: still an empty right dataset, same left
+    C = drive.run_pipeline(pipeline=gen.pipe_dict(p["pipeline"]), disp=tuple(p["disp"]), machine=B.machine, **kw)
+    if not isinstance(C.right, xr.Dataset) or len(C.right.data_vars) != 0:
+        ctx.violation("C08/right-dataset-not-empty-without-validation",
+                      f"on a machine that ran a pipeline with validation before: "
+                      f"{sorted(C.right.data_vars) if isinstance(C.right, xr.Dataset) else type(C.right).__name__}")
+    if not np.array_equal(A.left["disparity_map"].data, C.left["disparity_map"].data, equal_nan=True) or \
+            not np.array_equal(A.left["validity_mask"].data, C.left["validity_mask"].data):
+        ctx.violation("C08/left-product-depends-on-machine-history", "no-validation pipeline on a machine that ran with validation")
+    ctx.case(p, nontrivial=bool((new != 0).any()), classes=(["multiscale"] if "multiscale" in pipe else []) + ["then-same-machine-without-validation"])
 
 
 @st.composite
